@@ -12,7 +12,7 @@ LEVELS = {
          "Runtime monitor: the ledger (bankroll = behind + wager + pot, nothing negative, round pot = wagers, published pots = chips put in, zero-sum result) is asserted on the real engine's state after every operation of thousands of generated hands incl. hostile amounts. Held-on-observed, not a proof; exploration is the right level because the property is a state invariant whose violations show up on reachable states."),
  "C02": ("exploration", "reference side-pot settlement (independent hand evaluator) vs Result, direct vectors + real play", "4.2",
          "Reference-model monitor: an independent nested-pot settlement with an independent hand evaluator bounds every player's gross collection; small vector domain enumerated completely in thorough, random vectors and real showdowns otherwise."),
- "C03": ("exploration", "exhaustive differential against an independent 5-card evaluator (total order over tie classes)", "4.3",
+ "C03": ("exploration", "exhaustive differential against an independent 5-card evaluator (total order over tie classes), both variants evaluated concurrently after a mixed-use warm-up", "4.3",
          "Exhaustive observation: all 2,598,960 + 376,992 hands under both ranking tables are run through the real evaluator and grouped by an independent reference key; one score per class and strictly increasing scores over the sorted classes is equivalent to the pairwise statement. exhaustive: true."),
  "C04": ("exploration", "turn-order shadow + refused-without-effect probes at every wait point", "4.4",
          "Runtime monitor with negative probing: at every wait point of generated hands every unexpected operation on every seat is actually called on the live game and must fail leaving the JSON state identical; the seat asked is compared with a turn-order shadow."),
@@ -24,7 +24,7 @@ LEVELS = {
          "Fault = loss of everything not in the JSON (restart / backend hop), injected at every wait point of every explored history; followers must agree with the in-memory game after every operation. The shared-backend workload runs under the Go race detector."),
  "C08": ("exploration", "position oracle after every successful Next() + armed deal-in watch + engine hand-off", "4.8",
          "Runtime monitor over random seat histories and targeted join-between scenarios."),
- "C09": ("exploration", "tournament world ledger at quiescent points (needs read-only hook on the waiting queue)", "4.9",
+ "C09": ("exploration", "tournament world ledger at quiescent points (read-only hook on the waiting queue); concurrent world under the Go race detector", "4.9",
          "Conservation monitor: every live player in exactly one place, counters equal real numbers, refusals without effect; checked after every completed step of random tournament histories."),
  "C10": ("exploration", "brute-force best admissible selection with the independent evaluator", "4.10",
          "Reference-model monitor on every seat and street of generated hands plus direct draws through the engine's publication path."),
@@ -44,7 +44,7 @@ LEVELS = {
          "Runtime monitor over random seat histories; a panic is a violation."),
  "C18": ("exploration", "seat ledger under recover(); porcupine linearizability of recorded concurrent histories; Go race detector", "4.18",
          "Sequential ledger monitor, offline linearizability check (porcupine) of concurrent Join/Leave/Count histories recorded at the client boundary, and the race detector on the same workload at several GOMAXPROCS."),
- "C19": ("exploration", "capacity monitor inside requestTableFn/assignPlayersFn/SyncState results", "4.19",
+ "C19": ("exploration", "capacity monitor inside requestTableFn/assignPlayersFn/SyncState results; concurrent world under the Go race detector", "4.19",
          "Runtime monitor inside the tournament world callbacks over a settings grid."),
  "C20": ("exploration", "sweep-to-fixpoint driver with bounded sweep count; break returns everyone", "4.20",
          "Convergence restated as bounded progress: from every reached world state, sweeps must reach a quiet sweep within tables+8 sweeps."),
